@@ -11,7 +11,7 @@ import (
 func init() {
 	register(&propInfo{
 		ID:          "C06",
-		Explanation: "Value-origin and path analysis of cancellation: (R06.1) the cancel notification a waiting call sends when its context is done uses the method name the peer dispatches to its cancel handler, carries that same call's request id, is sent only in the arm watching the call's own context, and is built per call; (R06.2) the subscription watcher is started with the subscription's context and the id of the response that announced the channel (the request id, not the channel id), waits for that context before sending, and sends its own id argument under the cancel method; (R06.3) the server's cancel handler invokes only the cancel function it looked up under the id decoded from this frame; (R06.4) closed world: every invocation of a context.CancelFunc in the library is one of {the per-call completion closure under !keep, the cancel handler's looked-up entry, the failer's sweep, the loop's deferred cancel}; in the dispatcher every non-deferred completion call lies on a path that returns without running the handler; (R06.5) the call spawner registers the cancel function, paired with the context given to the handler, under the call's id before the handler goroutine is started and in the executor's own (in-order) goroutine; (R06.6) HTTP: the server hands the request's context to the reader path, the client attaches the caller's context to the HTTP request, and the context placed in the handler's argument list derives from the dispatcher's context parameter; over WebSocket it derives from the per-connection context. (R06.10) what is decided from the method descriptor is read, and handed to the completion callback, after name and alias resolution. (R06.11) the keep-context flag is computed from the resolved method descriptor, not from a side table keyed by the wire name. (R06.12) the keep-context flag is computed from 'kind is Chan' and index tests only; (R06.13) once the waiting call's context is done every path through that arm hands a cancel to the loop.",
+		Explanation: "Value-origin and path analysis of cancellation: (R06.1) the cancel notification a waiting call sends when its context is done uses the method name the peer dispatches to its cancel handler, carries that same call's request id, is sent only in the arm watching the call's own context, and is built per call; (R06.2) the subscription watcher is started with the subscription's context and the id of the response that announced the channel (the request id, not the channel id), waits for that context before sending, and sends its own id argument under the cancel method; (R06.3) the server's cancel handler invokes only the cancel function it looked up under the id decoded from this frame; (R06.4) closed world: every invocation of a context.CancelFunc in the library is one of {the per-call completion closure under !keep, the cancel handler's looked-up entry, the failer's sweep, the loop's deferred cancel}; in the dispatcher every non-deferred completion call lies on a path that returns without running the handler; (R06.5) the call spawner registers the cancel function, paired with the context given to the handler, under the call's id before the handler goroutine is started and in the executor's own (in-order) goroutine; (R06.6) HTTP: the server hands the request's context to the reader path, the client attaches the caller's context to the HTTP request, and the context placed in the handler's argument list derives from the dispatcher's context parameter; over WebSocket it derives from the per-connection context. (R06.10) what is decided from the method descriptor is read, and handed to the completion callback, after name and alias resolution. (R06.11) the keep-context flag is computed from the resolved method descriptor, not from a side table keyed by the wire name. (R06.12) the keep-context flag is computed from 'kind is Chan' and index tests only; (R06.13) once the waiting call's context is done every path through that arm hands a cancel to the loop. (R06.14) keys of the handling table come from the id normaliser also in the cancel handler; (R06.15) the auth wrapper hands on a request whose context derives from the incoming one.",
 		NotDecided:  "Instants and races of cancellation; that a handler observes its context; peer ping/idle-timer effects on handler contexts (keepalive is decided under C17).",
 		Assumptions: []string{"the cancel method name is the constant under which the frame switch reaches the cancel handler"},
 		Run:         runC06,
@@ -149,6 +149,10 @@ func runC06(c *Ctx) {
 	c.rule("R06.4", "closed world of CancelFunc invocations; no completion call precedes the handler on a path that runs it")
 	c.rule("R06.5", "cancel function registered under the call's id, paired with the handler's context, before the handler goroutine starts, on the executor goroutine")
 	c.rule("R06.6", "context derivation: HTTP server/client use the request's/caller's context; the handler's context argument derives from the dispatcher's context; per-connection context over WebSocket")
+	c.rule("R06.14", "the cancel handler finds the call under the id as every table keys it: keys come from the id normaliser (a cancel for a call with a string id must reach it too)")
+	c.keyRule("R06.14")
+	c.ruleOpt("R06.15", "an HTTP wrapper of the library (the auth handler) hands on a request whose context still derives from the incoming request's context through cancellation-preserving steps: aborting the request reaches the handler also for authenticated calls")
+	c.wrapperKeepsRequestContext("R06.15")
 	c.ruleOpt("R06.13", "once the waiting call's context is done the cancel notification is sent on every path (whatever kind of call it is), short of a marshalling failure")
 	cancelName, haveName := c.cancelMethodName()
 	if !haveName {
@@ -824,17 +828,25 @@ func (c *Ctx) ctxDerivation(rule string) {
 			n++
 			construct := fmt.Sprintf("%s: caller's context attached to the HTTP request", fname(fn))
 			good := false
-			if withCtx != nil && c.isParamOrForwarded(withCtx.Common().Args[1], ctxPrm) {
+			// the context may travel through a request-building helper's parameter
+			fromCaller := func(v ssa.Value) bool {
+				return c.isParamOrForwarded(v, ctxPrm) || (v.Parent() != fn && c.dependsOn(v, func(x ssa.Value) bool { return x == ssa.Value(ctxPrm) }, 0, map[ssa.Value]bool{}))
+			}
+			if withCtx != nil && fromCaller(withCtx.Common().Args[1]) {
 				// the request actually sent derives from the WithContext result
 				p.coneInstrs(fn, func(in ssa.Instruction) {
 					if ci, ok := in.(*ssa.Call); ok && calleeName(ci) == "(*net/http.Client).Do" {
 						if c.dependsOn(ci.Common().Args[1], func(v ssa.Value) bool { return v == ssa.Value(withCtx) }, 0, map[ssa.Value]bool{}) {
 							good = true
 						}
+						// … also when a helper built it and returned it
+						if c.someOrigin(ci.Common().Args[1], func(a apath) bool { return a.Root == ssa.Value(withCtx) && len(a.Fields) == 0 }) {
+							good = true
+						}
 					}
 				})
 			}
-			if newReqCtx != nil && c.isParamOrForwarded(newReqCtx.Common().Args[0], ctxPrm) {
+			if newReqCtx != nil && fromCaller(newReqCtx.Common().Args[0]) {
 				good = true
 			}
 			c.check(good, rule, construct, p.pos(fn.Pos()), "hreq.WithContext(ctx) is what is sent", "the HTTP request is sent without the caller's context: cancelling the call no longer aborts the request, so the handler is never cancelled")
@@ -1026,7 +1038,23 @@ func (c *Ctx) ctxCallDerives(call *ssa.Call, resIdx int, target func(ssa.Value) 
 		}
 	}
 	if ctxP == nil {
-		return false
+		// a helper that makes the context from something else it is given (a request): every context it
+		// returns derives from the target inside the helper, or is nil next to a failure flag
+		okAll, nret := true, 0
+		allInstrs(f, func(in ssa.Instruction) {
+			rt, ok := in.(*ssa.Return)
+			if !ok || resIdx >= len(rt.Results) {
+				return
+			}
+			if isNilConst(rt.Results[resIdx]) {
+				return
+			}
+			nret++
+			if !c.ctxDerives(rt.Results[resIdx], target, depth+1, map[ssa.Value]bool{}) {
+				okAll = false
+			}
+		})
+		return okAll && nret > 0
 	}
 	okAll, nret := true, 0
 	allInstrs(f, func(in ssa.Instruction) {
@@ -1208,5 +1236,37 @@ func (c *Ctx) cancelSentOnEveryPath(rule string, sel *ssa.Select, arm *ssa.BinOp
 		c.bad(rule, construct, c.ipos(bad), "a path leaves the context-done arm without handing a cancel request to the connection loop (e.g. an exemption for channel-returning calls): a call of that kind whose context ends while it is in flight is never cancelled on the server")
 	} else {
 		c.ok(rule, construct, c.ipos(sel), "every path through the arm sends a request (or fails with an error)")
+	}
+}
+
+// wrapperKeepsRequestContext: R06.15. In the auth package every (*http.Request).WithContext(ctx) is
+// given a ctx that derives from (*http.Request).Context() through cancellation-preserving steps
+// (WithValue, WithCancel … — not WithoutCancel, not Background).
+func (c *Ctx) wrapperKeepsRequestContext(rule string) {
+	p := c.P
+	if p.Auth == nil {
+		return
+	}
+	n := 0
+	isReqCtx := func(v ssa.Value) bool {
+		ci, ok := v.(*ssa.Call)
+		return ok && calleeName(ci) == "(*net/http.Request).Context"
+	}
+	for _, fn := range p.Funcs {
+		if pkgOf(fn) != p.Auth.Pkg {
+			continue
+		}
+		allInstrsRaw(fn, func(in ssa.Instruction) {
+			ci, ok := in.(*ssa.Call)
+			if !ok || calleeName(ci) != "(*net/http.Request).WithContext" {
+				return
+			}
+			n++
+			c.check(c.ctxDerives(ci.Common().Args[1], isReqCtx, 0, map[ssa.Value]bool{}), rule, fmt.Sprintf("%s: context of the request handed on", fname(fn)), c.ipos(ci),
+				"derives from the incoming request's context", "the request handed to the next handler carries a context that is cut off from the incoming request's (context.WithoutCancel, Background): aborting an authenticated HTTP call no longer cancels its handler")
+		})
+	}
+	if n == 0 {
+		c.ok(rule, "auth wrapper", "-", "no request is given another context")
 	}
 }
